@@ -146,6 +146,13 @@ def histories(run, graphs, seeds, length, *, flavour='plain', concurrent=3, read
             if kw.get('cache') == '__shared__':
                 kw['cache'] = str(d / 'shared-cache')      # one cache directory for every key (the CLI default for one OS user)
             hk = dict(hist_kw)
+            from .. import refcodec as _rc
+            try:
+                repodrv.Session(g, d / 'probe', seed=seed, **{k_: v_ for k_, v_ in kw.items() if k_ != 'cache'})
+            except _rc.FormatError as ex:
+                # a key made by init / add-key does not open with its own password (independent codec): a verdict, not a harness failure
+                run.violation('P:UnlockOwnPasswordOnly', 'any', {'graph': g, 'seed': seed, 'what': 'a key written by init / add-key does not open with its own password', 'error': str(ex)})
+                continue
             if flavour == 'b2':
                 # the real B2 adapter over a service model with file versions and hide markers
                 from .. import b2store, membackend
